@@ -15,6 +15,8 @@
                                    by 2n ≡ the negacyclic convolution Σ_{i+k=j} a_i·b_k − Σ_{i+k=j+2n} a_i·b_k modulo p
     naive_convolution_1_val        mpir_fft_naive_convolution_1 = the same convolution of the low limbs modulo 2^64
     negacyclic_crt                 the two residues determine the coefficient: what mulmod_2expp1.c:127-139 stores
+    negacyclic_sum_is_product      Σ_j c_j·X^j ≡ (Σ a_i X^i)(Σ b_k X^k) modulo X^(2n) + 1 for the negacyclic coefficients c_j (X = 2^bits1:
+                                   the modulus is B^r_limbs + 1 and the right side is i1·i2)
     recombine_corrected            … and the sign correction of :153-167 applied to the stored pair (ii[j], r[j]) gives back the coefficient
   The whole function has a value-level model (Mpir/Model/FftMulmod.lean: `fft_mulmod_2expp1`, r1 as a number modulo
   B^(r_limbs+1)) that is run against the C (op fftx_fft_mulmod_2expp1) and, through mpn_mulmod_Bexpp1, against the
@@ -25,8 +27,8 @@
     --   fft_mulmod_2expp1 i1 i2 depth w = canon i1.length (val i1 * val i2)
   missing: the fold of mpir_fft_combine_bits and of the corrections over the 2n − 1 coefficients (every step an addition
   modulo B^(r_limbs+1), no carry leaves a window because the limb above it is still zero), the wrap-around of the last
-  coefficient (X^(2n) = B^r_limbs ≡ −1; that coefficient is never negative), the bound |Σ c_j X^j| < B^(r_limbs+1)/2 that
-  makes the signed reading of r1 exact, and Σ_j c_j X^j ≡ i1·i2 (the negacyclic Cauchy product at X = 2^bits1).
+  coefficient (X^(2n) = B^r_limbs ≡ −1; that coefficient is never negative) and the bound |Σ c_j X^j| < B^(r_limbs+1)/2 that
+  makes the signed reading of r1 exact.
 -/
 import MpirProofs.Lemmas.FftXRecomb
 import MpirProofs.Props.C01_fftx
@@ -137,6 +139,32 @@ theorem negacyclic_crt (L : Nat) (hL : 1 ≤ L) (c v : Int) (hv0 : 0 ≤ v) (hv1
 example : (-5 : Int) ≡ (B : Int) - 4 [ZMOD (B : Int) ^ 1 + 1] := by decide
 example : ((B : Int) - 4) + (((-5 : Int) % B - ((B : Int) - 4) % B) % B) * ((B : Int) ^ 1 + 1) = -5 + (B : Int) ^ 2 + B := by
   decide
+
+/-- The negacyclic coefficients c_j = Σ_{i ≤ j} a_i·b_(j−i) − Σ_{i > j} a_i·b_(m+j−i) of two vectors of m entries represent the product
+    of the polynomials modulo X^m + 1, for every integer X: Σ_j c_j·X^j ≡ (Σ a_i X^i)·(Σ b_k X^k).  In mpir_fft_mulmod_2expp1:
+    m = 2n, X = 2^bits1, X^m + 1 = B^r_limbs + 1, and the right side is i1·i2 (mpir_fft_split_bits: `split_combine_id`). -/
+theorem negacyclic_sum_is_product (a b : List Int) (m : Nat) (ha : ∀ i, m ≤ i → el a i = 0) (hb : ∀ i, m ≤ i → el b i = 0)
+    (X : Int) :
+    ∑ j ∈ range m, ((∑ i ∈ range (j + 1), el a i * el b (j - i)) - ∑ i ∈ Ico (j + 1) m, el a i * el b (m + j - i)) * X ^ j ≡
+      (∑ i ∈ range m, el a i * X ^ i) * (∑ k ∈ range m, el b k * X ^ k) [ZMOD X ^ m + 1] := by
+  have h := negconv_eval_modEq a b m ha hb X
+  have e : ∑ j ∈ range m, el (negconv a b m) j * X ^ j =
+      ∑ j ∈ range m, ((∑ i ∈ range (j + 1), el a i * el b (j - i)) - ∑ i ∈ Ico (j + 1) m, el a i * el b (m + j - i)) * X ^ j := by
+    apply sum_congr rfl; intro j hj
+    have hj := mem_range.mp hj
+    rw [el_negconv _ _ _ _ hj]
+    congr 2
+    rw [← Finset.sum_subset (s₁ := Ico (j + 1) m) (s₂ := range (m + j + 1))]
+    · intro i hi; simp only [mem_Ico] at hi; simp only [mem_range]; omega
+    · intro i hi hni
+      simp only [mem_range] at hi; simp only [mem_Ico, not_and, not_lt] at hni
+      by_cases h1 : j + 1 ≤ i
+      · rw [ha i (hni h1)]; ring
+      · rw [hb (m + j - i) (by omega)]; ring
+  rw [e] at h; exact h
+
+-- non-vacuity: (1 + 2X + 3X²)(4 + 5X + 6X²) ≡ −23 − 5X + 28X² modulo X³ + 1, at X = 10
+example : ((-23 : Int) - 5 * 10 + 28 * 10 ^ 2 - (1 + 2 * 10 + 3 * 10 ^ 2) * (4 + 5 * 10 + 6 * 10 ^ 2)) % (10 ^ 3 + 1) = 0 := by decide
 
 /-- One coefficient of mpir_fft_mulmod_2expp1, from the residues to the corrected contribution: let v be the canonical
     residue (limbs+1 = L+1 limbs) of a coefficient c with |c| < B^(L+1)/2 and rj = c mod B the word of the word
